@@ -627,6 +627,7 @@ type C18Case struct {
 	Writer2 string `json:"writer2,omitempty"` // a second writer instance used by the odd tasks
 	Tasks  [][]Row  `json:"tasks"`
 	Sched  SchedCfg `json:"sched"`
+	Scribble bool   `json:"scribble,omitempty"` // every task overwrites its map as soon as AddRow has returned
 }
 
 func genC18(c *Ctx) any {
@@ -648,18 +649,50 @@ func genC18(c *Ctx) any {
 		// cross the big writer's 1000-row commit
 		per = 1000/nt + r.Range(1, 20)
 	}
+	cs.Scribble = r.Chance(1, 3)
+	manyValues := r.Chance(1, 100) // more than 65 536 values in one writer: rows of 300 columns
+	manyRows := !manyValues && r.Chance(1, 600) // more than 65 536 rows in one writer
+	if manyRows && r.Chance(3, 4) {
+		cs.Writer = "mem"
+	}
+	thin := false
+	if manyValues {
+		nt = r.Range(2, 4)
+		per = 66000/250/nt + r.Range(1, 4)
+		cs.Writer2 = ""
+		if cs.Writer == "big" {
+			// the disk-backed writer keeps a row batch in ONE bbolt transaction (quadratic in its size): many
+			// thin rows instead of few wide ones
+			thin = true
+			per = 66000/4/nt + r.Range(1, 40)
+		}
+	}
+	if manyRows {
+		nt = r.Range(2, 3)
+		per = 65536/nt + r.Range(5, 300)
+		cs.Writer2 = ""
+	}
 	vals := []string{"x", "y", "z", "", "ü"}
-	wide := r.Chance(1, 6)  // some rows with hundreds of columns
+	wide := r.Chance(1, 6) || (manyValues && !thin) // some rows with hundreds of columns
 	empty := r.Chance(1, 4) // some rows without any column (they cannot carry a tag; ids and the row universe still count them)
 	for t := 0; t < nt; t++ {
 		var rows []Row
 		for k := 0; k < per; k++ {
-			if empty && r.Chance(1, 3) {
+			if thin {
+				rows = append(rows, Row{{"tag", S(fmt.Sprintf("t%d_%d", t, k))}, {"a", S(vals[k%3])}, {"b", S(vals[(k/3)%3])}, {"c", S(vals[(k/9)%5])}})
+				continue
+			}
+			if manyRows {
+				// a constant column (set on runs of consecutive rows whatever the interleaving) and a slowly changing one
+				rows = append(rows, Row{{"tag", S(fmt.Sprintf("t%d_%d", t, k))}, {"src", "csv"}, {"blk", S(fmt.Sprint(k / 5000))}})
+				continue
+			}
+			if empty && !manyValues && r.Chance(1, 3) {
 				rows = append(rows, Row{})
 				continue
 			}
 			row := Row{{"tag", S(fmt.Sprintf("t%d_%d", t, k))}}
-			if wide && per <= 20 && r.Chance(1, 4) {
+			if (manyValues && !thin) || (wide && per <= 20 && r.Chance(1, 4)) {
 				for w, nw := 0, r.Range(250, 330); w < nw; w++ {
 					row = append(row, [2]S{S(fmt.Sprintf("w%d", w)), S(vals[w%3])})
 				}
@@ -674,8 +707,11 @@ func genC18(c *Ctx) any {
 		cs.Tasks = append(cs.Tasks, rows)
 	}
 	cs.Sched = genSched(c.Rand("sched"), int64(nt*per*40))
-	if per > 100 {
+	if per > 100 || manyValues {
 		cs.Sched = SchedCfg{Strategy: "rand", P: []uint64{2, 5, 20}[r.Intn(3)]}
+	}
+	if manyRows {
+		cs.Sched = SchedCfg{Strategy: "rand", P: []uint64{1, 2, 5}[r.Intn(3)]}
 	}
 	return cs
 }
@@ -755,6 +791,13 @@ func runC18(c *Ctx, body json.RawMessage) *Verdict {
 					o.call = simrt.Stamp()
 					o.panicky = guard(func() { o.id, o.err = w.AddRow(maps[t][i]) })
 					o.ret = simrt.Stamp()
+					if cs.Scribble {
+						// the map is the caller's again: a writer that kept it reads junk (and races with this)
+						for k := range maps[t][i] {
+							maps[t][i][k] = "scribbled"
+						}
+						maps[t][i]["scribbled-column"] = "x"
+					}
 				}
 			}
 		}
@@ -777,6 +820,9 @@ func runC18(c *Ctx, body json.RawMessage) *Verdict {
 	v.NonTrivial = len(cs.Tasks) >= 2 && res.Switches >= 2
 	if total > 1000 {
 		v.Count("probe_crossed_1000_rows", 1)
+	}
+	if total > 65536 {
+		v.Count("probe_crossed_65536_rows", 1)
 	}
 	if len(kinds) > 1 {
 		v.Count("probe_two_writer_instances", 1)
@@ -873,7 +919,7 @@ func runC18(c *Ctx, body json.RawMessage) *Verdict {
 					}
 				}
 			}
-			for _, col := range []string{"a", "b", "c"} {
+			for _, col := range []string{"a", "b", "c", "src", "blk", "w0", "w149", "w249"} {
 				q := &Query{Expr: Not(Eq("tag", "∅")), GroupBy: []S{S(col)}}
 				if ref.Execute(q).Err {
 					continue
